@@ -80,6 +80,27 @@ def pem_of(key):
     return key.private_bytes(serialization.Encoding.PEM, serialization.PrivateFormat.PKCS8, serialization.NoEncryption())
 
 
+EC_PARAMS_DER = {"secp256r1": bytes.fromhex("06082a8648ce3d030107"), "secp384r1": bytes.fromhex("06052b81040022"), "secp521r1": bytes.fromhex("06052b81040023")}
+HEADERS = ["", "", "/* header */", "#include <stdint.h>\n#include <stddef.h>",
+           "#ifdef __cplusplus\nextern \"C\" {\n#endif\n", "struct key_meta { uint8_t id; };\n", "/* {0} {array_name} %s 100% $HOME \\n */", "#define KEY_ID {1, 2}\n"]
+FOOTERS = ["", "", "/* end */\n", "#ifdef __cplusplus\n}\n#endif\n", "/* } { {} %d */\n"]
+
+
+def pem_layouts(key):
+    """the layouts in which standard tooling hands out a private key in PEM; each holds the same key"""
+    import base64
+    from cryptography.hazmat.primitives import serialization
+    out = [("pkcs8", pem_of(key))]
+    if hasattr(key, "curve"):
+        sec1 = key.private_bytes(serialization.Encoding.PEM, serialization.PrivateFormat.TraditionalOpenSSL, serialization.NoEncryption())
+        out.append(("sec1", sec1))
+        b64 = base64.encodebytes(EC_PARAMS_DER[key.curve.name]).decode()
+        out.append(("ecparam-genkey", ("-----BEGIN EC PARAMETERS-----\n" + b64 + "-----END EC PARAMETERS-----\n").encode() + sec1))   # openssl ecparam -name <curve> -genkey
+    pub = key.public_key().public_bytes(serialization.Encoding.PEM, serialization.PublicFormat.SubjectPublicKeyInfo)
+    out.append(("private-then-public", pem_of(key) + pub))
+    return out
+
+
 def expected_public(key):
     from cryptography.hazmat.primitives import serialization
     try:
@@ -107,11 +128,14 @@ def convert_cases(res, drv, rng, tier, d):
     hdrp, ftrp = os.path.join(d, "hdr.txt"), os.path.join(d, "ftr.txt")
     for i, (kind, key) in enumerate(keys):
         inp, outp = os.path.join(d, "key.pem"), os.path.join(d, "key.c")
-        open(inp, "wb").write(pem_of(key))
+        layouts = pem_layouts(key)
         exp, xy = expected_public(key)
         for rep in range(2 if tier == "quick" else 3):
-            header = rng.choice(["", "", "/* header */", "#include <stdint.h>\n#include <stddef.h>"])
-            footer = rng.choice(["", "", "/* end */\n"])
+            layout, pem = layouts[(i + rep) % len(layouts)] if rep else layouts[0]
+            open(inp, "wb").write(pem)
+            res.count("convert:pem-layout:" + layout)
+            header = rng.choice(HEADERS)
+            footer = rng.choice(FOOTERS)
             open(hdrp, "w").write(header)
             open(ftrp, "w").write(footer)
             opts = dict(array_type=rng.choice(["uint8_t", "unsigned char"]), array_name=rng.choice(["key_buf", "public_key0"]),
@@ -124,7 +148,7 @@ def convert_cases(res, drv, rng, tier, d):
                                  footer_file=ftrp if footer or rng.random() < 0.5 else "", **opts)
                 text = open(outp).read()
             except BaseException as e:  # noqa
-                res.spec_failures.append({"key": kind, "options": opts, "what": "convert failed: " + type(e).__name__})
+                res.spec_failures.append({"key": kind, "pem_layout": layout, "options": opts, "header": header, "footer": footer, "what": "convert failed: " + type(e).__name__})
                 continue
             res.case(["convert", kind, i, rep, sorted(opts.items()), header, footer])
             res.count("convert:" + kind.split("=")[0].split(":x-")[0].split(":y-")[0])
